@@ -74,6 +74,10 @@ CLAIMED = {
              text="Round-trip equality and interchangeability are checked on real values over all tag-set sizes; the loaders are cross-checked against an independent TLA+ parser on prefixes, byte faults, both caps +-1, inflated counts and non-canonical scalars.",
              note="JSON forms are checked by round trip and a list of malformed documents, not by an independent JSON parser.",
              ref="5/C15"),
+ "C18": dict(level="model_checking", technique="Aggregator.tla (bucketing in arbitrary arrival order, threshold filter, worker pool with arbitrary scheduling, join) model-checked by TLC over all interleavings incl. termination under fairness; model configurations scaled and executed on the real AggregationServer under rayon pools of 1..16 threads and input permutations",
+             text="Schedule and order independence are properties of a small concurrent state machine, exhaustively explored in the model; the real server is run on the same configurations (scaled up to hundreds of groups) with different pool sizes and permutations and its output compared with the model's prediction as a set.",
+             note="Real rayon schedules are sampled, not controlled. Absent and empty associated data are identified, as the reference server does.",
+             ref="5/C18"),
 }
 NA_REASON = "check not built yet in this round (planned: see DESIGN.md section 5); not claimed until its machinery exists"
 
